@@ -171,6 +171,10 @@ pub struct Profile {
     /// thresholds drawn without the ordering mandatory <= stall < max_compaction_files
     pub adversarial_thresholds: bool,
     pub gc_variety: bool,
+    /// options forced to a value after the seeded draw (replacing any drawn value)
+    pub force_opts: Vec<(&'static str, &'static str)>,
+    /// multiply the drawn weight of verifier passes by this
+    pub verify_boost: u32,
 }
 
 impl Profile {
@@ -189,6 +193,8 @@ impl Profile {
             tight_files: false,
             adversarial_thresholds: false,
             gc_variety: true,
+            force_opts: vec![],
+            verify_boost: 1,
         };
         Some(match name {
             "kvs" => base,
@@ -217,6 +223,44 @@ impl Profile {
                 tight_files: true,
                 min_ops: 15,
                 max_ops: 70,
+                ..base
+            },
+            // Held cursors across compactions, manifest rollovers and verifier passes with no
+            // table cache: a lazily opened file has to be found by path long after it was retired.
+            "kvs-hold-verify" => Profile {
+                name: "kvs-hold-verify",
+                holds: true,
+                reopen: false,
+                scans: false,
+                min_ops: 30,
+                max_ops: 110,
+                force_opts: vec![
+                    ("--sst-cache-bytes", "0"),
+                    ("--mani-log-rollover-ratio", "0"),
+                    ("--memtable-size-bytes", "64"),
+                    ("--l0-mandatory-compaction-threshold-files", "2"),
+                    ("--sst-target-file-size", "4096"),
+                    ("--sst-minimum-file-size", "4096"),
+                ],
+                verify_boost: 6,
+                ..base
+            },
+            "tree-hold-verify" => Profile {
+                name: "tree-hold-verify",
+                mode: Mode::Tree,
+                holds: true,
+                reopen: false,
+                scans: false,
+                min_ops: 30,
+                max_ops: 110,
+                force_opts: vec![
+                    ("--sst-cache-bytes", "0"),
+                    ("--mani-log-rollover-ratio", "0"),
+                    ("--l0-mandatory-compaction-threshold-files", "2"),
+                    ("--sst-target-file-size", "4096"),
+                    ("--sst-minimum-file-size", "4096"),
+                ],
+                verify_boost: 6,
                 ..base
             },
             "kvs-stall" => Profile {
@@ -480,6 +524,10 @@ fn gen_opts(rng: &mut Rng, p: &Profile) -> (Vec<(String, String)>, bool) {
             rng.pick(&[0u64, 1024, 65536]).to_string(),
         );
     }
+    for (k, v) in p.force_opts.iter() {
+        o.retain(|(kk, _)| kk != k);
+        o.push((k.to_string(), v.to_string()));
+    }
     (o, small_files)
 }
 
@@ -499,7 +547,7 @@ pub fn generate(seed: u64, p: &Profile) -> History {
         if p.scans { rng.range(0, 8) as u32 } else { 0 },      // scan
         rng.range(2, 14) as u32,                               // flush
         rng.range(2, 20) as u32,                               // compact
-        if p.verify { rng.range(0, 4) as u32 } else { 0 },     // verify
+        if p.verify { rng.range(0, 4) as u32 * p.verify_boost + (p.verify_boost - 1) } else { 0 }, // verify
         if p.reopen { rng.range(0, 5) as u32 } else { 0 },     // reopen
         if p.holds { rng.range(2, 8) as u32 } else { 0 },      // hold
         if p.holds { rng.range(4, 14) as u32 } else { 0 },     // hold_use
@@ -512,7 +560,8 @@ pub fn generate(seed: u64, p: &Profile) -> History {
         w[2] = rng.range(10, 40) as u32;
         w[5] = 0;
     }
-    let big_values = small_files && rng.chance(2, 3);
+    let forced_small = p.force_opts.iter().any(|(k, v)| *k == "--sst-target-file-size" && *v == "4096");
+    let big_values = forced_small || (small_files && rng.chance(2, 3));
     // A hot subset of keys gets most of the writes so that many versions of one key exist.
     let hot: Vec<usize> = (0..rng.range(1, 3))
         .map(|_| rng.usize_below(keys.len()))
